@@ -16,6 +16,11 @@ trap cleanup EXIT
 case "$id" in C18) pkgdir=db ;; C19|C20) pkgdir=v2 ;; *) pkgdir=. ;; esac
 # a change to the v2 module is demonstrated and tested there
 grep -q '^+++ b/v2/' "$patch" && pkgdir=v2
+# a demonstration that declares another package than the root one lives next to the patched file
+demopkg=$(grep -m1 '^package ' "$demo" | awk '{print $2}')
+case "$demopkg" in fastnode|fastnode_test) pkgdir=fastnode ;; esac
+# a demonstration that uses the verif yield points needs the tag
+tags=""; grep -q '^//go:build verif' "$demo" && tags="-tags verif"
 cp /repo/cmd/legacydump/legacydump "$wt/cmd/legacydump/legacydump" 2>/dev/null
 cd "$wt"
 applies=true
@@ -25,9 +30,9 @@ builds=true
 (cd $pkgdir && go build ./... >/dev/null 2>&1) || builds=false
 cp "$demo" "$pkgdir/zz_seeded_demo_test.go"
 runpkg="."
-demo_with="pass"; (cd $pkgdir && timeout 1200 go test -vet=off -count=1 -timeout 20m -run 'Seeded' $runpkg >/tmp/confirm-$id$x.with 2>&1) || demo_with="fail"
+demo_with="pass"; (cd $pkgdir && timeout 1200 go test $tags -vet=off -count=1 -timeout 20m -run 'Seeded' $runpkg >/tmp/confirm-$id$x.with 2>&1) || demo_with="fail"
 git apply -R "$patch"
-demo_without="pass"; (cd $pkgdir && timeout 1200 go test -vet=off -count=1 -timeout 20m -run 'Seeded' $runpkg >/tmp/confirm-$id$x.without 2>&1) || demo_without="fail"
+demo_without="pass"; (cd $pkgdir && timeout 1200 go test $tags -vet=off -count=1 -timeout 20m -run 'Seeded' $runpkg >/tmp/confirm-$id$x.without 2>&1) || demo_without="fail"
 rm -f "$pkgdir/zz_seeded_demo_test.go"
 suite_res="skipped"
 if [ "$suite" = suite ]; then
